@@ -19,6 +19,7 @@ import (
 	"net"
 	"net/http"
 	"net/http/httptest"
+	"reflect"
 	"strings"
 	"sync"
 	"time"
@@ -124,6 +125,9 @@ type scenario struct {
 	// ClearTo: the `to` of the peer's clear-text stream header: "" the
 	// session's own address, "omitted", or a foreign address (full, bare, domain).
 	ClearTo string `json:"clear_to,omitempty"`
+	// ClearFrom "near-shift": the clear-text header's `from` has the octets of
+	// the location with the last one of the domainpart moved into a resourcepart.
+	ClearFrom string `json:"clear_from,omitempty"`
 	// Location: the domain the stream is addressed to when it is not the domain
 	// of the session's own address (NewSession with another location); S2S makes
 	// the session a server-to-server initiator whose own address is Domain.
@@ -147,7 +151,7 @@ func genScenario(r *rand.Rand) scenario {
 		Answer: answerKinds[r.Intn(len(answerKinds))],
 		InTLS:  inTLSKinds[r.Intn(len(inTLSKinds))],
 		Tee:    "off",
-		Cfg:    []string{"default", "explicit"}[r.Intn(2)],
+		Cfg:    []string{"default", "default", "default", "explicit", "explicit", "explicit", "explicit-noname", "explicit-insecure"}[r.Intn(8)],
 		Inst:   r.Intn(2) == 0,
 		Domain: domains[r.Intn(len(domains))],
 		TLS12:  r.Intn(4) == 0,
@@ -178,6 +182,13 @@ func genScenario(r *rand.Rand) scenario {
 		sc.ClearTo = "foreign-bare"
 	case 3:
 		sc.ClearTo = "foreign-domain"
+	case 4:
+		sc.ClearTo = "near-domain-shift"
+	case 5:
+		sc.ClearTo = "near-local-shift"
+	}
+	if r.Intn(15) == 0 {
+		sc.ClearFrom = "near-shift"
 	}
 	sc.Mechs = []string{"plain", "plain", "scram", "scram", "both"}[r.Intn(5)]
 	sc.Info = r.Intn(5) < 3
@@ -311,8 +322,28 @@ func peerHeader(sc scenario, id string) string {
 		to = " to='mallory@" + foreignDomain + "'"
 	case "foreign-domain":
 		to = " to='" + foreignDomain + "'"
+	case "near-domain-shift", "near-local-shift":
+		to = " to='" + nearMiss(sc, sc.ClearTo) + "'"
 	}
-	return header(sc, " version='1.0' id='"+id+"' from='"+locationStr(sc)+"'"+to)
+	from := locationStr(sc)
+	if sc.ClearFrom == "near-shift" {
+		from = from[:len(from)-1] + "/" + from[len(from)-1:]
+	}
+	return header(sc, " version='1.0' id='"+id+"' from='"+from+"'"+to)
+}
+
+// nearMiss is an address with the same octets as the session's own but with a
+// part boundary moved: the last octet of the domainpart pushed into the
+// resourcepart, or the last octet of the localpart into the domainpart.
+func nearMiss(sc scenario, kind string) string {
+	d := sc.Domain
+	if sc.S2S {
+		return d[:len(d)-1] + "/" + d[len(d)-1:]
+	}
+	if kind == "near-local-shift" {
+		return user[:len(user)-1] + "@" + user[len(user)-1:] + d + "/res"
+	}
+	return user + "@" + d[:len(d)-1] + "/" + d[len(d)-1:] + "res"
 }
 
 // frame adapts what the peer says to the WebSocket framing, where every
@@ -1143,10 +1174,16 @@ func judge(c *core.Case, sc scenario, res result, prior []string) {
 			c.Count("real_ws_handshakes", 1)
 		}
 	}
+	if sc.ClearFrom != "" {
+		c.Count("clear_from_"+sc.ClearFrom, 1)
+	}
 	if sc.ClearTo != "" {
 		c.Count("clear_to_"+sc.ClearTo, 1)
 		if strings.HasPrefix(sc.ClearTo, "foreign") && len(res.Peer.Clear) == 1 && !res.ErrNil {
 			c.Count("clear_to_foreign_stopped_negotiation", 1)
+		}
+		if strings.HasPrefix(sc.ClearTo, "near") && len(res.Peer.Clear) == 1 && !res.ErrNil {
+			c.Count("clear_to_near_miss_stopped_negotiation", 1)
 		}
 		if sc.ClearTo == "omitted" && res.Peer.Hellos > 0 {
 			c.Count("clear_to_omitted_reached_tls", 1)
@@ -1295,7 +1332,7 @@ func judge(c *core.Case, sc scenario, res result, prior []string) {
 		c.Count("client_answered_clear_features_after_whitespace", 1)
 	}
 	// 3. server name
-	if sc.Cfg == "default" && res.Peer.Hellos > 0 {
+	if (sc.Cfg == "default" || sc.Cfg == "explicit-noname") && res.Peer.Hellos > 0 {
 		c.Count("sni_checked", 1)
 		for _, name := range res.Peer.SNI {
 			if name == sc.Domain {
@@ -1307,7 +1344,7 @@ func judge(c *core.Case, sc scenario, res result, prior []string) {
 					key = "sni:reuse"
 				}
 			}
-			c.Violate(key, "no TLS configuration was supplied and the session's address is %s@%s, but the ClientHello names %q (earlier sessions with the same feature value: %v)", user, sc.Domain, name, prior)
+			c.Violate(key, "the TLS configuration (%s) names no server and the session's own address is %s, but the ClientHello names %q (earlier sessions with the same feature value: %v; scenario %+v)", sc.Cfg, originStr(sc), name, prior, sc)
 		}
 	}
 }
@@ -1317,11 +1354,60 @@ func judge(c *core.Case, sc scenario, res result, prior []string) {
 // library's closure, not a harness frame).
 var newStartTLS = xmpp.StartTLS
 
-func startTLSFor(sc scenario) xmpp.StreamFeature {
-	if sc.Cfg == "explicit" {
-		return newStartTLS(identity().ClientConfig(explicitName))
+// clientConfig builds the TLS configuration a scenario hands to StartTLS:
+// "default" none, "explicit" one that names a server, "explicit-noname" only
+// RootCAs (crypto/tls refuses to handshake without a name), "explicit-insecure"
+// no name and no verification.
+func clientConfig(kind string) *tls.Config {
+	switch kind {
+	case "explicit":
+		return identity().ClientConfig(explicitName)
+	case "explicit-noname":
+		return &tls.Config{RootCAs: identity().Pool, MinVersion: tls.VersionTLS12}
+	case "explicit-insecure":
+		return &tls.Config{InsecureSkipVerify: true, MinVersion: tls.VersionTLS12}
 	}
-	return newStartTLS(nil)
+	return nil
+}
+
+func startTLSFor(sc scenario) xmpp.StreamFeature {
+	return newStartTLS(clientConfig(sc.Cfg))
+}
+
+// fingerprint renders the exported fields of a caller's tls.Config (values of
+// basic kinds and slices, identity of pointers, nil-ness of functions) so that
+// a change made behind the caller's back shows.
+func fingerprint(cfg *tls.Config) string {
+	if cfg == nil {
+		return "<nil>"
+	}
+	var sb strings.Builder
+	v := reflect.ValueOf(cfg).Elem()
+	for i := 0; i < v.NumField(); i++ {
+		f := v.Type().Field(i)
+		if !f.IsExported() {
+			continue
+		}
+		fv := v.Field(i)
+		switch fv.Kind() {
+		case reflect.Func:
+			fmt.Fprintf(&sb, "%s:func-nil=%v;", f.Name, fv.IsNil())
+		case reflect.Ptr, reflect.Interface, reflect.Map:
+			if fv.IsNil() {
+				fmt.Fprintf(&sb, "%s:nil;", f.Name)
+			} else if fv.Kind() == reflect.Map {
+				fmt.Fprintf(&sb, "%s:map[%d];", f.Name, fv.Len())
+			} else {
+				fmt.Fprintf(&sb, "%s:%v;", f.Name, fv.Interface() != nil)
+				if fv.Kind() == reflect.Ptr {
+					fmt.Fprintf(&sb, "@%x;", fv.Pointer())
+				}
+			}
+		default:
+			fmt.Fprintf(&sb, "%s:%v;", f.Name, fv.Interface())
+		}
+	}
+	return sb.String()
 }
 
 type groupSample struct {
@@ -1406,7 +1492,16 @@ func outcomeClass(r result) string {
 
 // reuseGroup uses one StartTLS(nil) value for several sessions with different
 // domains.
-func reuseGroup(c *core.Case, r *rand.Rand, concurrent bool) {
+func reuseGroup(c *core.Case, r *rand.Rand, concurrent bool) { reuseGroupCfg(c, r, concurrent, "") }
+
+// reuseGroupCfg: the shared feature value is built from no configuration or
+// from ONE caller-owned tls.Config of the given kind; each session must name
+// (if the configuration names nobody) its own domain, and the caller's
+// configuration must come back unchanged.
+func reuseGroupCfg(c *core.Case, r *rand.Rand, concurrent bool, kind string) {
+	if kind == "" {
+		kind = []string{"default", "default", "default", "explicit-noname", "explicit-insecure", "explicit"}[r.Intn(6)]
+	}
 	n := 2 + r.Intn(4)
 	p := r.Perm(len(domains))
 	gs := &groupSample{Kind: "reuse-sequential"}
@@ -1418,12 +1513,23 @@ func reuseGroup(c *core.Case, r *rand.Rand, concurrent bool) {
 			Adv:    []string{"tls-required", "tls-optional+others", "mechs-only", "tls-required+others"}[r.Intn(4)],
 			Answer: "proceed-tls",
 			InTLS:  []string{"full", "features-empty"}[r.Intn(2)],
-			Tee:    "off", Cfg: "default", Domain: domains[p[i]], Order: r.Perm(4), Inst: r.Intn(2) == 0, TLSHdr: "complete",
+			Tee:    "off", Cfg: kind, Domain: domains[p[i]], Order: r.Perm(4), Inst: r.Intn(2) == 0, TLSHdr: "complete",
 		}
 		gs.Scenarios = append(gs.Scenarios, sc)
 	}
 	c.Sample(gs)
-	stls := newStartTLS(nil)
+	shared := clientConfig(kind)
+	before := fingerprint(shared)
+	stls := newStartTLS(shared)
+	defer func() {
+		if shared == nil {
+			return
+		}
+		c.Count("reuse_caller_config_compared_"+kind, 1)
+		if after := fingerprint(shared); after != before {
+			c.Violate("cfg:caller-config-modified", "the tls.Config handed to StartTLS (%s) was modified by negotiating with it:\nbefore %s\nafter  %s\n(domains %v)", kind, before, after, gs.Scenarios)
+		}
+	}()
 	gs.Results = make([]result, n)
 	if concurrent {
 		c.Count("reuse_concurrent_groups", 1)
@@ -1452,7 +1558,7 @@ func reuseGroup(c *core.Case, r *rand.Rand, concurrent bool) {
 			judge(c, sc, gs.Results[i], prior)
 			prior = append(prior, sc.Domain)
 			c.Count("reuse_sessions", 1)
-			if i > 0 && gs.Results[i].Peer.Hellos > 0 {
+			if i > 0 && gs.Results[i].Peer.Hellos > 0 && kind == "default" {
 				c.Count("reuse_across_domains_observed", 1)
 			}
 		}
@@ -1591,6 +1697,29 @@ var fixedCases = []scenario{
 	{Adv: "tls-required+others", Mechs: "plain"},
 }
 
+// fixedGroups follow fixedCases at the next lower indexes.
+var fixedGroups = []func(c *core.Case){
+	// one caller-owned configuration for sessions with different domains
+	func(c *core.Case) { reuseGroupCfg(c, c.Rand, false, "explicit-noname") },
+	func(c *core.Case) { reuseGroupCfg(c, c.Rand, false, "explicit-insecure") },
+	func(c *core.Case) { reuseGroupCfg(c, c.Rand, true, "explicit-noname") },
+	func(c *core.Case) { reuseGroupCfg(c, c.Rand, false, "explicit") },
+	// clear-text headers whose addresses are near misses of the session's
+	func(c *core.Case) { fixedNear(c, scenario{ClearTo: "near-domain-shift"}) },
+	func(c *core.Case) { fixedNear(c, scenario{ClearTo: "near-local-shift"}) },
+	func(c *core.Case) { fixedNear(c, scenario{ClearFrom: "near-shift"}) },
+	func(c *core.Case) {
+		fixedNear(c, scenario{ClearTo: "near-domain-shift", S2S: true, Location: domains[3]})
+	},
+	func(c *core.Case) { fixedNear(c, scenario{ClearTo: "near-domain-shift", ClearFrom: "near-shift"}) },
+}
+
+func fixedNear(c *core.Case, sc scenario) {
+	sc.Adv, sc.Answer, sc.InTLS, sc.Cfg, sc.Domain, sc.Order, sc.TLSHdr, sc.CfgFunc = "tls-required", "proceed-tls", "full", "default", domains[1], []int{0, 1, 2, 3}, "complete", "static"
+	c.Count("fixed_near_miss_header_groups", 1)
+	teeGroupN(c, sc, []string{"in"}, 0)
+}
+
 func run(c *core.Case) {
 	r := c.Rand
 	if j := c.Prop.Cases(c.Tier) - 1 - c.Index; j >= 0 && j < len(fixedCases) {
@@ -1598,6 +1727,9 @@ func run(c *core.Case) {
 		sc.Answer, sc.InTLS, sc.Cfg, sc.Domain, sc.Order, sc.TLSHdr, sc.CfgFunc = "proceed-tls", "full", "explicit", domains[j], []int{0, 1, 2, 3}, "complete", "static"
 		c.Count("fixed_several_features_groups_mechs_"+mechsKind(sc), 1)
 		teeGroupN(c, sc, []string{"both"}, 7)
+		return
+	} else if j -= len(fixedCases); j >= 0 && j < len(fixedGroups) {
+		fixedGroups[j](c)
 		return
 	}
 	switch k := r.Intn(21); {
@@ -1655,6 +1787,8 @@ func Prop() *core.Prop {
 		"slice_reuse_first_session_ready_over_tls", "slice_reuse_later_session_forced_starttls",
 		"slice_reuse_groups_ws_framed", "ws_framed_sessions_negotiator", "ws_framed_sessions_newsession", "ws_framed_forced_starttls",
 		"real_ws_sessions_origin_http", "real_ws_sessions_origin_https", "real_ws_starttls_requested_origin_https", "real_ws_origin_pairs_compared",
+		"fixed_near_miss_header_groups", "clear_to_near-domain-shift", "clear_to_near-local-shift", "clear_from_near-shift",
+		"reuse_caller_config_compared_explicit-noname", "reuse_caller_config_compared_explicit-insecure", "reuse_caller_config_compared_explicit",
 		"fixed_several_features_groups_mechs_scram", "fixed_several_features_groups_mechs_both", "fixed_several_features_groups_mechs_plain",
 		"sessions_with_several_features_on_one_clear_list_mechs_scram", "repeated_sessions_compared", "in_tls_scram_exchanges_completed",
 		"feature_queries_after_handshake", "handshakes_after_clear_only_features", "protected_feature_data_seen",
